@@ -254,16 +254,29 @@ func frostLibraryAccepts(s frost.Signature, key ref.Pt, msg []byte) (ok bool) {
 	if !s.Verify(pk, msg) {
 		return false
 	}
-	m2 := append([]byte{}, msg...)
-	if len(m2) == 0 {
-		m2 = []byte{1}
+	// every part of the message must be bound: first byte, last byte, length
+	var others [][]byte
+	if len(msg) == 0 {
+		others = append(others, []byte{1})
 	} else {
-		m2[0] ^= 1
+		a := append([]byte{}, msg...)
+		a[0] ^= 1
+		b := append([]byte{}, msg...)
+		b[len(b)-1] ^= 1
+		others = append(others, a, b, append(append([]byte{}, msg...), 0))
+		if len(msg) > 1 {
+			others = append(others, msg[:len(msg)-1])
+		}
+	}
+	for _, m2 := range others {
+		if s.Verify(pk, m2) {
+			return false
+		}
 	}
 	s2 := s
 	s2.R = s.R.Add(curve.Secp256k1{}.NewBasePoint())
 	otherKey := lib(ref.Add(key, ref.MulG(big.NewInt(1))))
-	return !s.Verify(pk, m2) && !s2.Verify(pk, msg) && !s.Verify(otherKey, msg)
+	return !s2.Verify(pk, msg) && !s.Verify(otherKey, msg)
 }
 
 // SigBytes gives a canonical byte form of a signature for agreement checks.
